@@ -220,7 +220,9 @@ func validateBackendTLSPolicyMatchingAllBackends(backendRefs []BackendRef) *cond
 	var referencePolicy *BackendTLSPolicy
 
 	checkPoliciesEqual := func(p1, p2 *v1alpha3.BackendTLSPolicy) bool {
-		return !slices.Equal(p1.Spec.Validation.CACertificateRefs, p2.Spec.Validation.CACertificateRefs) ||
+		// CACertificateRefs are local references: equal refs in different namespaces name different ConfigMaps.
+		return (len(p1.Spec.Validation.CACertificateRefs) > 0 && p1.Namespace != p2.Namespace) ||
+			!slices.Equal(p1.Spec.Validation.CACertificateRefs, p2.Spec.Validation.CACertificateRefs) ||
 			p1.Spec.Validation.WellKnownCACertificates != p2.Spec.Validation.WellKnownCACertificates ||
 			p1.Spec.Validation.Hostname != p2.Spec.Validation.Hostname
 	}
